@@ -108,3 +108,13 @@ Definition madctl_new (bgr : bool) (o : orient) (btt rtl : bool) : Z :=
 (* From<&ModelOptions> for SetAddressMode *)
 Definition madctl_of_opts (o : opts) : Z :=
   with_refresh_order (with_orientation (with_color_order 0 (o_bgr o)) (o_orient o)) (o_btt o) (o_rtl o).
+
+(* chains of the three `with_*` setters *)
+Inductive setter := SColor (bgr : bool) | SOrient (o : orient) | SRefresh (btt rtl : bool).
+Definition apply_setter (b : Z) (s : setter) : Z :=
+  match s with
+  | SColor c => with_color_order b c
+  | SOrient o => with_orientation b o
+  | SRefresh v h => with_refresh_order b v h
+  end.
+Definition apply_setters (b : Z) (l : list setter) : Z := fold_left apply_setter l b.
